@@ -4,7 +4,7 @@
    hand models that are run against the real code on every run. *)
 From Coq Require Import ZArith List Bool.
 From MomoCommon Require Import GenPrelude.
-From C09 Require Gen_UIntMath Gen_MemPoolConst Gen_MemPool PoolLayout PoolLinks PoolArith PoolLinksProofs PoolModel PoolConc PoolConcProofs.
+From C09 Require Gen_UIntMath Gen_MemPoolConst Gen_MemPool PoolLayout PoolLinks PoolArith PoolLinksProofs PoolModel PoolConc PoolConcProofs PoolInv.
 Import ListNotations.
 Local Open Scope Z_scope.
 
@@ -252,3 +252,54 @@ Theorem C09_cache_bounded_all_histories : forall C CF uc ops, 1 <= CF ->
   PoolConcProofs.bounded CF (PoolConcProofs.crun C CF uc ops).
 Proof. exact PoolConcProofs.cache_bounded_all_histories. Qed.
 Print Assumptions C09_cache_bounded_all_histories.
+
+(* ===== the invariant of the concrete model (PoolInv.v).  STATUS: the invariant is defined and holds initially; its
+   preservation is proved for the ghost/cache steps of Allocate/Deallocate (below), NOT yet for take / attach_new / push+move /
+   drop / MergeFrom / DeallocateAll / DeallocateIf, so the consequences are stated for every state that satisfies the
+   invariant, not yet for every history (see NOTES.md). ===== *)
+Theorem C09_inv_holds_initially : forall C, PoolInv.J C PoolConc.empty_world.
+Proof. exact PoolInv.J_empty. Qed.
+Print Assumptions C09_inv_holds_initially.
+
+(* preservation by the counter/ghost steps and the cache steps (q = the pool operated on, the hole = the block in transit) *)
+Theorem C09_inv_add_live : forall C q bk w, PoolInv.Jq C q (Some bk) w -> PoolInv.Jq C q None (PoolConc.add_live w q bk).
+Proof. exact PoolInv.add_live_J. Qed.
+Print Assumptions C09_inv_add_live.
+
+Theorem C09_inv_remove_live : forall C q bk w, PoolInv.Jq C q None w -> In bk (PoolConc.live (PoolConc.getp w q)) ->
+  PoolInv.Jq C q (Some bk) (PoolConc.remove_live w q bk).
+Proof. exact PoolInv.remove_live_J. Qed.
+Print Assumptions C09_inv_remove_live.
+
+Theorem C09_inv_cache_push : forall C q bk w, PoolInv.Jq C q (Some bk) w ->
+  PoolInv.Jq C q None (PoolConc.set_cache w q (bk :: PoolConc.cache (PoolConc.getp w q))).
+Proof. exact PoolInv.cache_push_J. Qed.
+Print Assumptions C09_inv_cache_push.
+
+Theorem C09_inv_cache_pop : forall C q bk rest w, PoolInv.Jq C q None w -> PoolConc.cache (PoolConc.getp w q) = bk :: rest ->
+  PoolInv.Jq C q (Some bk) (PoolConc.set_cache w q rest).
+Proof. exact PoolInv.cache_pop_J. Qed.
+Print Assumptions C09_inv_cache_pop.
+
+(* in every state satisfying the invariant: the block pvNewBlock takes from the head buffer's chain, and the block Allocate
+   pops from the cache, are not live (nor cached elsewhere) in either pool: no block is handed out twice *)
+Theorem C09_inv_chain_block_not_live : forall C q w head rest,
+  PoolInv.Jq C q None w -> PoolConc.lfree (PoolConc.getp w q) = head :: rest ->
+  ~ In (head, PoolConc.fb w head) (PoolInv.lb (PoolConc.getp w q)) /\
+  ~ In (head, PoolConc.fb w head) (PoolInv.lb (PoolConc.getp w (negb q))).
+Proof. exact PoolInv.chain_block_not_live. Qed.
+Print Assumptions C09_inv_chain_block_not_live.
+
+Theorem C09_inv_cache_block_not_live : forall C q w bk rest,
+  PoolInv.Jq C q None w -> PoolConc.cache (PoolConc.getp w q) = bk :: rest ->
+  ~ In bk (PoolConc.live (PoolConc.getp w q)) /\ ~ In bk (PoolInv.lb (PoolConc.getp w (negb q))).
+Proof. exact PoolInv.cache_block_not_live. Qed.
+Print Assumptions C09_inv_cache_block_not_live.
+
+(* in every state satisfying the invariant: a buffer whose freeBlockCount equals blockCount - the only situation in which
+   pvDeleteBlock hands a buffer back (C09_buffer_returned_only_when_count_full) - has no live and no cached block *)
+Theorem C09_inv_full_count_no_live : forall C q w b,
+  PoolInv.Jq C q None w -> In b (PoolInv.own (PoolConc.getp w q)) -> PoolConc.fc w b = C ->
+  forall bk, In bk (PoolInv.lb (PoolConc.getp w q)) \/ In bk (PoolInv.lb (PoolConc.getp w (negb q))) -> fst bk <> b.
+Proof. exact PoolInv.full_count_no_live. Qed.
+Print Assumptions C09_inv_full_count_no_live.
